@@ -123,12 +123,26 @@ impl Peer {
 
     /// Performs the handshake: sends Reset and Hello, waits for the remote Hello.
     pub async fn handshake(&mut self, hello: Frame, junk_before: Vec<Vec<u8>>) -> Option<HelloCfg> {
+        self.handshake_ext(hello, junk_before, Vec::new()).await
+    }
+
+    /// Like `handshake`, with foreign frames also between Reset and Hello (a peer that started
+    /// over while it was writing its Hello; leftovers of an earlier connection).
+    pub async fn handshake_ext(&mut self, hello: Frame, junk_before: Vec<Vec<u8>>, junk_between: Vec<Vec<u8>>) -> Option<HelloCfg> {
         for j in junk_before {
             if !self.send_raw(j).await {
                 return None;
             }
         }
-        if !self.send(&Frame::Reset).await || !self.send(&hello).await {
+        if !self.send(&Frame::Reset).await {
+            return None;
+        }
+        for j in junk_between {
+            if !self.send_raw(j).await {
+                return None;
+            }
+        }
+        if !self.send(&hello).await {
             return None;
         }
         self.wait_for(Duration::from_secs(30), |m| matches!(m, PeerMsg::Frame(Frame::Hello { .. }))).await?;
